@@ -2,7 +2,7 @@
 From Coq Require Import Qround Qabs.
 From DA Require Import Prelude NDArray Array PyRT.
 From DA.Model Require Import Value Reshape SliceSpec Indexing Align Transform Flatten.
-From DA.Proofs Require Import C10_proofs C11_proofs.
+From DA.Proofs Require Import C10_proofs C11_proofs C05_proofs C11_roundtrip.
 Open Scope nat_scope.
 Open Scope list_scope.
 
@@ -60,6 +60,15 @@ Theorem C11_unflatten_flatten : forall names ins a r,
 Proof. exact unflatten_group_at. Qed.
 Print Assumptions C11_unflatten_flatten.
 
+(* ... for ANY subset of dimensions in ANY order, given as tuple / list / set, at any insert position: flatten followed by
+   unflatten gives back the array itself (contiguous group in order) or the transposed array flatten worked on - and C10 says
+   that a transposed array holds every element at the same label coordinates *)
+Theorem C11_unflatten_flatten_any : forall rs as_set insert a r,
+  WF a -> plain a -> flatten rs as_set insert a = Ok r ->
+  exists b, (b = a \/ exists newdims, transpose (map ByName newdims) a = Ok b) /\ unflatten r = Ok b.
+Proof. exact unflatten_flatten. Qed.
+Print Assumptions C11_unflatten_flatten_any.
+
 Definition ex_a : darr :=
   Arr [Ax "x" KI [L_ 1; L_ 2] [] []; Ax "y" KO [LStr "a"; LStr "b"; LStr "c"] [] []; Ax "z" KF [LNum (qz 1 2)] [] []]
       [2; 3; 1] KI [N_ 0; N_ 1; N_ 2; N_ 3; N_ 4; N_ 5] [].
@@ -69,3 +78,5 @@ Example C11_nonvacuous :
      dat (vals r) = [N_ 0; N_ 3; N_ 1; N_ 4; N_ 2; N_ 5] /\ unflatten r = transpose [ByName "y"; ByName "z"; ByName "x"] ex_a) /\
   (exists r, reshape ["y,x"; "z"]%string ex_a = Ok r /\ dims r = ["y,x"; "z"]%string).
 Proof. split; eexists; repeat split; reflexivity. Qed.
+Example C11_roundtrip_premises : WF ex_a /\ plain ex_a.
+Proof. split; [apply wfb_WF; vm_compute; reflexivity | repeat constructor]. Qed.
